@@ -287,6 +287,15 @@ def handle (toks : List String) : Option String :=
         let nd := if kind == "simpson" then discretizeSimpson dt num den else discretizeGBT alpha dt num den
         s!"{peval nd.1 (1 / z) / peval nd.2 (1 / z)} {listStr toString nd.1} {listStr toString nd.2}"
       | _, _, _, _, _ => "bad-op"
+  -- spec: H evaluated at the DOCUMENTED map s(z): gbt  s = (1/dt)(1 - 1/z)/(alpha + (1 - alpha)/z),
+  --       simpson  s = (3/dt)(z^2 - 1)/(z^2 + 4 z + 1)
+  | ["disc.spec", kind, alpha, dt, z, num, den] => some <| Id.run do
+      match parseCRat alpha, parseCRat dt, parseCRat z, parseList parseCRat num, parseList parseCRat den with
+      | some alpha, some dt, some z, some num, some den =>
+        let s0 : CRat := if kind == "simpson" then (1 + 1 + 1) / dt * (z * z - 1) / (z * z + (1 + 1 + 1 + 1) * z + 1)
+                 else 1 / dt * (1 - 1 / z) / (alpha + (1 - alpha) * (1 / z))
+        toString (peval num s0 / peval den s0)
+      | _, _, _, _, _ => "bad-op"
   -- model: impulse invariance of Σ r_i/(s - p_i) given E_i = exp(p_i dt): value at z and first n samples
   | "ii.model" :: dt :: z :: n :: "|" :: rest => some <| Id.run do
       match parseCRat dt, parseCRat z, n.toNat? with
